@@ -1,7 +1,7 @@
 (** C02 - Attach, move, detach and children assignment have exactly the
     specified effect.  Only statements; proofs are [exact <lemma>]. *)
 Require Import AT.Model.Base AT.Model.Heap AT.Model.Mutate AT.Spec.MutSpec.
-Require AT.Proofs.MutParent AT.Proofs.MutHistory.
+Require AT.Proofs.MutParent AT.Proofs.MutHistory AT.Proofs.MutDelRun.
 Import AT.Proofs.MutParent.
 
 (** [n.parent = v] (v a node or None), hooks not raising, from any point of
@@ -35,7 +35,19 @@ Theorem C02_effect_is_detach_then_attach : forall h n p q,
 Proof. exact eff_move. Qed.
 Print Assumptions C02_effect_is_detach_then_attach.
 
-(** Not yet proved in Coq (kept visible): the children assignment / deletion
+(** [del n.children], hooks not raising, from any consistent state: every
+    child becomes a root (its parent is None), n has no children, every other
+    field of every node is unchanged ([del_effect] is that pointwise
+    description); the hook log is the specified one; the internal assertion
+    holds *)
+Theorem C02_del : forall typed asrt n s,
+  let h := heap_of s in
+  Inv h -> n < length h ->
+  del_children typed asrt no_faults n s = (Ok tt, st_after s (del_effect h n) (fst (log_del_children h n))).
+Proof. exact MutDelRun.del_children_run. Qed.
+Print Assumptions C02_del.
+
+(** Not yet proved in Coq (kept visible): the children assignment
     and constructor effects, and their refusal iff.  They are decided on every
     explored call by evaluating this very specification on the
     implementation's observed states (Corr/Mut.v, spec02). *)
